@@ -152,6 +152,8 @@ class SynthDef(metaclass=MetaSynthDef):
             try:
                 _libsc3.main._current_synthdef = self
                 self._init_build()
+                self._callable_args = list(inspect.signature(
+                    func).parameters.keys())[len(utl.as_list(prepend)):]
                 self._build_ugen_graph(func, rates, prepend)
                 self._finish_build()
                 self._func = func
@@ -221,7 +223,6 @@ class SynthDef(metaclass=MetaSynthDef):
             raise TypeError('func argument is not a function')
 
         sig = inspect.signature(func)
-        self._callable_args = list(sig.parameters.keys())
         params = list(sig.parameters.values())
 
         if not params:
